@@ -76,6 +76,8 @@ pub struct RDebug {
 /// The dynamic section is scanned entry by entry until `DT_NULL`; a target that never
 /// terminates it must not keep us busy forever.
 const MAX_DYNAMIC_ENTRIES: usize = 4096;
+/// Upper bound on the number of loaded objects we are willing to follow
+const MAX_LINK_MAP_ENTRIES: usize = 4096;
 
 /// Copies exactly `length` bytes from the target, a short read is an error (the data is
 /// reinterpreted as a fixed-size struct by the callers)
@@ -209,6 +211,12 @@ pub fn write_dso_debug_stream(
     let mut dso_vec = Vec::new();
     let mut curr_map = debug_entry.r_map;
     while curr_map != 0 {
+        // A corrupted (e.g. cyclic) list must not be followed forever
+        if dso_vec.len() >= MAX_LINK_MAP_ENTRIES {
+            return Err(SectionDsoDebugError::CouldNotFind(
+                "the end of the link_map list",
+            ));
+        }
         let link_map_data = copy_exact(
             blamed_thread,
             curr_map,
